@@ -353,6 +353,9 @@ def run_tests(workdir, timeout=1500):
         return False, 'timeout (hang)'
 
 
+NOTESTS = [False]
+
+
 def work(prop, m, slot):
     workdir = '/var/tmp/mut_%s_%d_%d' % (prop, os.getpid(), slot)
     scratch = workdir + '_ev'
@@ -368,6 +371,8 @@ def work(prop, m, slot):
         rec.update({'check_rc': rc, 'violations': nv, 'first': first})
         if rc == 1:
             rec['status'] = 'detected'
+        elif rc == 0 and NOTESTS[0]:
+            rec['status'] = 'missed'       # (not run through the repository's tests)
         elif rc == 0:
             ok, tail = run_tests(workdir)
             rec['tests_pass'] = ok
@@ -393,7 +398,7 @@ def main():
             count[verdict] = count.get(verdict, 0) + 1
         print(count)
         for verdict, key, st in rows:
-            if verdict in ('survivor', 'machinery/timeout'):
+            if verdict in ('survivor', 'missed', 'machinery/timeout'):
                 print(verdict, key[0].split('/')[-1], key[1], key[2], key[3],
                       repr(key[4][:50]), '->', repr(key[5][:50]), sorted(st))
         return
@@ -420,7 +425,7 @@ def main():
         for r in rows:
             by.setdefault(r['status'], []).append(r)
         print({k: len(v) for k, v in by.items()})
-        for st in ('survivor', 'machinery', 'timeout'):
+        for st in ('survivor', 'missed', 'machinery', 'timeout'):
             for r in by.get(st, []):
                 print(st, r['id'], r['file'], r['func'], r['line'], r['kind'],
                       repr(r['old'][:60]), '->', repr(r['new'][:60]),
@@ -439,6 +444,8 @@ def main():
             only = {int(x) for x in args[i + 1].split(',')}
         if a == '--redo':
             redo = set(args[i + 1].split(','))
+        if a == '--notests':
+            NOTESTS[0] = True
     os.makedirs(OUT, exist_ok=True)
     done = {}
     if os.path.exists(path) and only is None:
@@ -505,6 +512,8 @@ def union_report(props):
             verdict = 'detected'
         elif 'killed-by-tests' in vals:
             verdict = 'killed-by-tests'
+        elif 'missed' in vals and 'survivor' not in vals:
+            verdict = 'missed'
         elif vals & {'machinery', 'timeout'}:
             verdict = 'machinery/timeout'
         else:
